@@ -1125,6 +1125,37 @@ def r13_4(ctx: Ctx) -> None:
                        "removal is left entirely to SoftwareManager.uninstall" if not own else f"removes from {own} itself")
 
 
+def r13_4_guards(ctx: Ctx) -> None:
+    """Contradiction rule: `if k in A.request_types: B.remove_request(k)` believes that k is registered on the manager it is about to
+    change; A and B must be the same manager (a guard on another table skips the removal, or lets it raise)."""
+    ix = ctx.ix
+    n = 0
+    for cs in call_sites(ix, ["remove_request", "add_request"]):
+        if cs.fn is None or isinstance(cs.fn.node, ast.Lambda) or not isinstance(cs.call.func, ast.Attribute) or not cs.call.args:
+            continue
+        recv = unparse(cs.call.func.value)
+        key = unparse(cs.call.args[0])
+        g = CFG(cs.fn.node)
+        node = next((x for x in g.nodes if any(c is cs.call for c in node_calls(x))), None)
+        if node is None:
+            continue
+        for e in g.edges():
+            if not (e.label and e.label[0] == "cond"):
+                continue
+            x = e.label[1]
+            if isinstance(x, ast.Compare) and len(x.ops) == 1 and isinstance(x.ops[0], ast.In) and unparse(x.left) == key \
+                    and unparse(x.comparators[0]).endswith(".request_types"):
+                # does this test guard the call (the call is unreachable without passing one of the test's arms)?
+                if g.path_avoiding([node], lambda e2: e2.src is e.src) is not None:
+                    continue
+                tested = unparse(x.comparators[0])[:-len(".request_types")]
+                n += 1
+                ctx.record("R13.4", ctx.key(cs.fn, f"{call_name(cs.call)}({key}) on {recv} is guarded by a test of the same manager"), cs.where,
+                           tested == recv, f"guard tests `{key} in {tested}.request_types`" + ("" if tested == recv else
+                           f" but the call changes {recv}: the route on {recv} is kept (or the call raises) whenever the two tables differ"))
+    ctx.count("R13.4: guarded route registrations", n)
+
+
 def r13_5(ctx: Ctx) -> None:
     """Service.start / Application.run refuse while their node is not ON (R13.2's gate), so the node's bulk start-up is a no-op
     unless the node has been switched ON before it runs: software 'follows its lifecycle under node power events' only then."""
@@ -1229,6 +1260,7 @@ def check(ctx: Ctx) -> None:
     r13_2(ctx, uni)
     r13_3(ctx, uni)
     r13_4(ctx)
+    r13_4_guards(ctx)
     r13_5(ctx)
     r13_7(ctx, svc, app)
     # "start/run are accepted only with the node ON": the node-power guard of the software base classes is C12's rule R12.5
